@@ -34,7 +34,7 @@ def generate(rng, tier):
     if faults:
         for op in spec["ops"]:
             if op["op"] == "restart" and rng.random() < 0.7:
-                op["fault"] = rng.choice([{"enospc_after": rng.randint(0, 900)}, {"eio_after": rng.randint(0, 900)},
+                op["fault"] = rng.choice([{"enospc_after": rng.randint(0, 900)}, {"eio_after": rng.randint(0, 900)}, {"enospc_at_close": rng.choice([0.0, 0.5, 1.0])},
                                           {"crash": "lost"}, {"crash": "torn", "torn_at": rng.randint(1, 600)}])
     spec["faults"] = faults
     return spec
